@@ -263,3 +263,34 @@ inst!(c08_bndm_fixed_m63_n64, 66, bndm_fixed::<63, 64>());
 inst!(c08_bndm_fixed_m64_n64, 66, bndm_fixed::<64, 64>());
 inst!(c08_bndm_fixed_m64_n65, 67, bndm_fixed::<64, 65>());
 inst!(c08_bndm_fixed_m64_n67, 69, bndm_fixed::<64, 67>());
+
+/// BNDM at the 64-symbol boundary: text = pattern except at K symbolic positions (spread evenly), which may flip A<->C.
+#[cfg(kani)]
+pub fn bndm_fixed_sparse<const M: usize, const N: usize, const K: usize>() {
+    let p = fixed_pattern::<M>();
+    let mut t = [b'C'; N];
+    let mut i = 0;
+    while i < N {
+        t[i] = if i < M { p[i] } else { b'C' };
+        i += 1;
+    }
+    let mut k = 0;
+    while k < K {
+        let pos = (k * (N - 1)) / (if K > 1 { K - 1 } else { 1 });
+        let flip: bool = kani::any();
+        if flip {
+            t[pos] = if t[pos] == b'A' { b'C' } else { b'A' };
+        }
+        k += 1;
+    }
+    let m = BNDM::new(p.iter());
+    let hits = expect_exact(&p, &t, m.find_all(&t[..]));
+    kani::cover!(hits >= 1, "an occurrence exists");
+    if K > 0 {
+        kani::cover!(hits == 0, "no occurrence");
+    }
+}
+inst!(c08_bndm_sparse_m64_n64_k0, 66, bndm_fixed_sparse::<64, 64, 0>());
+inst!(c08_bndm_sparse_m64_n64_k2, 66, bndm_fixed_sparse::<64, 64, 2>());
+inst!(c08_bndm_sparse_m64_n65_k3, 67, bndm_fixed_sparse::<64, 65, 3>());
+inst!(c08_bndm_sparse_m63_n64_k3, 66, bndm_fixed_sparse::<63, 64, 3>());
